@@ -502,7 +502,10 @@ pub fn str_domain(maxlen: u32) -> Vec<String> {
 }
 
 pub const NAME_INITIALS: &[&str] =
-    &["a", "z", "A", "!", "$", "%", "&", "*", "/", ":", "<", "=", ">", "?", "@", "^", "_", "~", "λ", "n", "t"];
+    &["a", "z", "A", "!", "$", "%", "&", "*", "/", ":", "<", "=", ">", "?", "@", "^", "_", "~", "λ", "n", "t",
+      // alphabetic initials at the UTF-8 length / lead-byte boundaries: U+00AA (C2), U+07FA (DF), U+0800 (E0), U+D7FB (ED),
+      // U+FFDC (EF), U+10000 (F0 90), U+30000 (F0 B0)
+      "\u{aa}", "\u{7fa}", "\u{800}", "\u{d7fb}", "\u{ffdc}", "\u{10000}", "\u{30000}"];
 pub const NAME_SUBSEQ_EXTRA: &[&str] = &["0", "9", "+", "-", ".", "i", "l"];
 pub const NAME_PECULIAR: &[&str] =
     &["+", "-", "...", "+a", "-a", "+.a", "-.a", "+..", "-..", ".a", "..", "->", "+-", "-+", "--", ".+", "+@", "nil", "t", "nil:", ":nil", "nilx", "tt", "λ-1", "a.b", "a:b"];
